@@ -16,5 +16,7 @@ CONSTANTS
   StopAfterOps = 6
   StopPcs = {"notstarted", "top", "shortcut", "select", "get", "handling", "handled", "apply", "exit", "stopped"}
   ElapsedAlways = FALSE
+  WithCancel = TRUE
+  CancelPcs = {"notstarted", "top", "shortcut", "select", "get", "handling", "handled", "apply", "exit", "stopped"}
 PROPERTIES TerminatesAfterStop
 CHECK_DEADLOCK FALSE
